@@ -3,8 +3,9 @@
 From Murex Require Import Base.Outcome Base.Bytes Model.Redirect Check.C33 Proof.Redirect.
 Local Open Scope N_scope.
 
-(* Headline: for EVERY block (any number of commands, any redirection lists incl.
-   duplicates, any bytes, any files) the code-shaped model — stream identities wired by
+(* Headline: for EVERY block (any number of commands linked by `|`, ` ? ` or `;`, any
+   redirection lists over <out> <err> <null> <!out> <!err> <!null> and user-named pipes
+   <name> <!name> incl. duplicates and both streams redirected at once, any bytes, any files) the code-shaped model — stream identities wired by
    compile and createProcess — produces exactly the observation that the
    documentation-shaped predicate of the check accepts: every byte of every command
    lands in the documented sink, in order, and nowhere else. *)
@@ -15,7 +16,7 @@ Print Assumptions C33_model_meets_spec.
 
 (* The wiring itself: createProcess' switches = the documented destinations, for
    every position in a block of any length and every redirection list. *)
-Theorem C33_wire_doc : forall n i s, (s_link s = Pipe -> S i <> n) ->
+Theorem C33_wire_doc : forall n i s, (s_link s <> Semi -> S i <> n) ->
   wire n i s = (stream_of i (doc_out s), stream_of i (doc_err s)).
 Proof. exact wire_doc. Qed.
 Print Assumptions C33_wire_doc.
@@ -54,6 +55,28 @@ Theorem C33_null_redirects : forall o e fs,
 Proof. exact null_redirects. Qed.
 Print Assumptions C33_null_redirects.
 
+(* Both streams redirected at once (where the independent seed lived). *)
+Theorem C33_both_redirected : forall o e fs,
+  (exists st, run_block (one [R_err; R_bout] o e) fs = Ok st /\ st_out st = e /\ st_err st = o /\ st_fs st = fs) /\
+  (exists st, run_block (one [R_bout; R_err] o e) fs = Ok st /\ st_out st = e /\ st_err st = o /\ st_fs st = fs) /\
+  (exists st, run_block (one [R_err; R_bnull] o e) fs = Ok st /\ st_out st = [] /\ st_err st = o /\ st_fs st = fs) /\
+  (exists st, run_block (one [R_null; R_bout] o e) fs = Ok st /\ st_out st = e /\ st_err st = [] /\ st_fs st = fs).
+Proof. exact both_redirected. Qed.
+Print Assumptions C33_both_redirected.
+
+(* User-named pipes as targets: `cmd <p> <!q>` puts stdout in p, stderr in q, nothing elsewhere. *)
+Theorem C33_named_pipe_redirect : forall o e j k fs, j <> k ->
+  exists st, run_block (one [R_pipe j; R_bpipe k] o e) fs = Ok st /\
+    pipe_get (st_pipes st) j = o /\ pipe_get (st_pipes st) k = e /\ st_out st = [] /\ st_err st = [] /\ st_fs st = fs.
+Proof. exact named_pipe_redirect. Qed.
+Print Assumptions C33_named_pipe_redirect.
+
+(* `cmd ? next`: next reads cmd's stderr (and here copies it to stdout), cmd's stdout goes to stderr. *)
+Theorem C33_qpipe_routes : forall o e fs,
+  exists st, run_block (qpiped [] o e) fs = Ok st /\ st_out st = e /\ st_err st = o /\ st_fs st = fs.
+Proof. exact qpipe_routes. Qed.
+Print Assumptions C33_qpipe_routes.
+
 (* `cmd |> f` leaves f holding exactly the piped bytes, `cmd >> f` the previous
    contents followed by exactly those bytes; other files and streams untouched. *)
 Theorem C33_truncate_exact : forall o e f fs,
@@ -79,6 +102,14 @@ Theorem C33_old_wiring_refuted :
 Proof. exact old_wiring_refuted. Qed.
 Print Assumptions C33_old_wiring_refuted.
 
+(* The second fixed defect F33b: `<err>` used to be the NEXT command's compile-time stderr, which is
+   the stdin of the command after it when that command has a ` ? ` pipe. *)
+Theorem C33_old_err_wiring_refuted :
+  old_err_target 3 0 (Some QPipe) = SStdin 2 /\
+  stream_of 0 (doc_out {| s_act := Emit [111] []; s_redirs := [R_err]; s_link := Semi |}) = SParentErr.
+Proof. exact old_err_wiring_refuted. Qed.
+Print Assumptions C33_old_err_wiring_refuted.
+
 (* Non-vacuity: a three-command block with duplicates, a pipe and a file is accepted when
    observed as the model says, and spec_ok rejects the pre-fix observation of
    `c33emit <!out>` (stderr bytes vanish) and a truncate that keeps old contents. *)
@@ -89,7 +120,15 @@ Example C33_nonvacuous :
   o_err (model_obs blk [(1, [48])]) = [111] /\
   file_get (o_files (model_obs blk [(1, [48])])) 1 = Some [48; 69; 112] /\
   spec_ok {| c_stages := one [R_bout] [111] [69]; c_files := [];
-             c_obs := {| o_kind := 0; o_out := [111]; o_err := []; o_complaints := O; o_files := [] |} |} = false /\
+             c_obs := {| o_kind := 0; o_out := [111]; o_err := []; o_complaints := O; o_files := []; o_pipes := [] |} |} = false /\
   spec_ok {| c_stages := to_file (Trunc 0) [111] []; c_files := [(0, [48])];
-             c_obs := {| o_kind := 0; o_out := []; o_err := []; o_complaints := O; o_files := [(0, [48; 111])] |} |} = false.
+             c_obs := {| o_kind := 0; o_out := []; o_err := []; o_complaints := O; o_files := [(0, [48; 111])]; o_pipes := [] |} |} = false /\
+  (* `a <err>; b ? c` observed as before the second fix: a's bytes on stdout *)
+  spec_ok {| c_stages := [ {| s_act := Emit [111] []; s_redirs := [R_err]; s_link := Semi |};
+                           {| s_act := Emit [] [81]; s_redirs := []; s_link := QPipe |};
+                           {| s_act := Emit [] []; s_redirs := []; s_link := Semi |} ]; c_files := [];
+             c_obs := {| o_kind := 0; o_out := [111; 81]; o_err := []; o_complaints := O; o_files := []; o_pipes := [] |} |} = false /\
+  (* a named pipe that receives stderr although only stdout was sent there *)
+  spec_ok {| c_stages := one [R_pipe 0] [111] [69]; c_files := [];
+             c_obs := {| o_kind := 0; o_out := []; o_err := []; o_complaints := O; o_files := []; o_pipes := [(0, [111; 69])] |} |} = false.
 Proof. repeat split. Qed.
